@@ -63,6 +63,15 @@ let handle (stack : string) (args : string list) : string =
         (match StackGlue.parse_fld st (zs toks) with
          | Some f -> slots.(int_of_string s) <- Some f; "OK"
          | None -> "MODEL_BAD_TOKENS")
+    | "newp" :: s :: toks ->
+        (* configurations only: an array primitive gets its length, and zero-initialised storage *)
+        let toks = (match snd st, Stdlib.List.rev toks with
+          | S.PArray (m, _), len :: _ ->
+              toks @ Stdlib.List.init (int_of_string len * int_of_nat m) (fun _ -> "0")
+          | _ -> toks) in
+        (match StackGlue.parse_fld st (zs toks) with
+         | Some f -> slots.(int_of_string s) <- Some f; "OK"
+         | None -> "MODEL_BAD_TOKENS")
     | ("at" | "atv") :: s :: coords ->
         (match Extract_stack.m_eval st (get s) (zs coords) with
          | Some (_, v) -> "V" ^ show v
